@@ -26,7 +26,7 @@ UNSET = object()
 ANY = object()  # outcome value that is not checked (e.g. a constructor's return)
 
 
-class Boom(Exception):
+class Boom(RuntimeError):  # a RuntimeError on purpose: the sync facade must not mistake a user's RuntimeError for 'a loop is already running'
     def __init__(self, idx):
         super().__init__(f"Boom({idx})")
         self.idx = idx
